@@ -226,6 +226,10 @@ class World:
             tok = self.Token.unserialize(self.bytes[idx], self.public_key())
         else:
             tok = self.Token(prev, content_hash=chash, signature=sig)
+        if mode == 5:
+            # a duplicate object whose public ``content`` attribute was assigned directly (no constructor or loader
+            # produces this): only ever offered for a token the tree already holds - see execute()
+            tok.content = b"assigned-" + self.content[idx]
         if self.specs[idx].get("signer") == "f":
             # a token of the foreign key has, like in any application holding several trees, already been checked by
             # its own owner's tree (same object, other key) before it is offered to the tree under test
@@ -535,6 +539,10 @@ def execute(ctx: Ctx | None, case: dict, world: World | None = None, deep: bool 
     got: dict = {}
     for step, (idx, mode) in enumerate(case["events"]):
         idx = world.alias[idx]
+        if mode == 5 and idx not in model.closure:
+            # first insertion stores the caller's object as it is; an object with hand-assigned content is outside the
+            # input domain there (the API cannot build one) - the offer is made as a plain duplicate instead
+            mode = 0
         tok = world.make(idx, mode, last)
         had_content = tok.content is not None and hashlib.sha3_256(tok.content).digest() == world.raw[idx][1]
         try:
@@ -581,7 +589,7 @@ def _plan_strategy():
     dangling = st.tuples(st.just("dangling"), st.one_of(st.binary(min_size=32, max_size=32), st.just(None)),
                          st.integers(1, 3), st.lists(pos, min_size=3, max_size=3))
     dup = st.tuples(st.just("dup"), a, st.booleans(), st.booleans(), pos)
-    content = st.tuples(st.just("content"), a, st.sampled_from([1, 2, 3]), st.booleans(), pos)
+    content = st.tuples(st.just("content"), a, st.sampled_from([1, 2, 3, 5]), st.booleans(), pos)
     return st.lists(st.one_of(forge, foreign, dangling, dup, content, content), min_size=1, max_size=6)
 
 
